@@ -707,7 +707,7 @@ theorem duE_of_checkE : ∀ (e : Expr) (env : Env) (c : Scope), checkE env e = .
 
 mutual
 theorem strict_duS : ∀ (s : Stmt) (env env' : Env) (c : Scope),
-    checkS Mode.strict env s = .ok env' → InvC env c → ∃ c', duS c s = .ok c' ∧ InvC env' c'
+    checkS Mode.strict env s = .ok env' → InvC env c → ∃ c', duS false c s = .ok c' ∧ InvC env' c'
   | .assign ts e, env, env', c, h, hi => by
     obtain ⟨h1, rfl⟩ := checkS_assign h
     exact ⟨c.addAll ts, by simp only [duS, duE_of_checkE e env c h1 hi.2]; rfl, hi.extendAll ts⟩
@@ -747,7 +747,7 @@ theorem strict_duS : ∀ (s : Stmt) (env env' : Env) (c : Scope),
     have := checkS_pass h; subst this
     exact ⟨c, rfl, hi⟩
 theorem strict_duB : ∀ (b : Block) (env env' : Env) (c : Scope),
-    checkB Mode.strict env b = .ok env' → InvC env c → ∃ c', duB c b = .ok c' ∧ InvC env' c'
+    checkB Mode.strict env b = .ok env' → InvC env c → ∃ c', duB false c b = .ok c' ∧ InvC env' c'
   | .nil, env, env', c, h, hi => by
     have := checkB_nil h; subst this
     exact ⟨c, rfl, hi⟩
@@ -818,7 +818,7 @@ theorem checkE_of_duE : ∀ (e : Expr) (env : Env) (c : Scope), duE c e = .ok ()
     rfl
 
 mutual
-theorem du_mono_S : ∀ (s : Stmt) (c c' : Scope), duS c s = .ok c' → ∀ x, c x = true → c' x = true
+theorem du_mono_S : ∀ (s : Stmt) (c c' : Scope), duS false c s = .ok c' → ∀ x, c x = true → c' x = true
   | .assign ts e, c, c', h, x, hx => by
     simp only [duS] at h
     obtain ⟨_, _, h⟩ := bind_ok h
@@ -830,7 +830,7 @@ theorem du_mono_S : ∀ (s : Stmt) (c c' : Scope), duS c s = .ok c' → ∀ x, c
     obtain ⟨_, _, h⟩ := bind_ok h
     have := pure_ok h; subst this; exact hx
   | .ite cnd t e, c, c', h, x, hx => by
-    simp only [duS] at h
+    simp only [duS, Bool.false_and, Bool.false_eq_true, if_false] at h
     obtain ⟨_, _, h⟩ := bind_ok h
     obtain ⟨o1, h1, h⟩ := bind_ok h
     obtain ⟨o2, h2, h⟩ := bind_ok h
@@ -865,7 +865,7 @@ theorem du_mono_S : ∀ (s : Stmt) (c c' : Scope), duS c s = .ok c' → ∀ x, c
   | .pass, c, c', h, x, hx => by
     simp only [duS] at h
     have := pure_ok h; subst this; exact hx
-theorem du_mono_B : ∀ (b : Block) (c c' : Scope), duB c b = .ok c' → ∀ x, c x = true → c' x = true
+theorem du_mono_B : ∀ (b : Block) (c c' : Scope), duB false c b = .ok c' → ∀ x, c x = true → c' x = true
   | .nil, c, c', h, x, hx => by
     simp only [duB] at h
     have := pure_ok h; subst this; exact hx
@@ -876,7 +876,7 @@ theorem du_mono_B : ∀ (b : Block) (c c' : Scope), duB c b = .ok c' → ∀ x, 
 end
 
 mutual
-theorem du_strict_S : ∀ (s : Stmt) (env : Env) (c c' : Scope), duS c s = .ok c' → InvD env c →
+theorem du_strict_S : ∀ (s : Stmt) (env : Env) (c c' : Scope), duS false c s = .ok c' → InvD env c →
     ∃ env', checkS Mode.strict env s = .ok env' ∧ InvD env' c'
   | .assign ts e, env, c, c', h, hi => by
     simp only [duS] at h
@@ -892,7 +892,7 @@ theorem du_strict_S : ∀ (s : Stmt) (env : Env) (c c' : Scope), duS c s = .ok c
     exact ⟨env.merge ift, by simp only [checkS, checkE_of_duE cnd env c h1 hi.2, hc]; rfl,
       hi.merge hi1 (du_mono_B t c c1 h2)⟩
   | .ite cnd t e, env, c, c', h, hi => by
-    simp only [duS] at h
+    simp only [duS, Bool.false_and, Bool.false_eq_true, if_false] at h
     obtain ⟨_, h1, h⟩ := bind_ok h
     obtain ⟨o1, h2, h⟩ := bind_ok h
     obtain ⟨o2, h3, h⟩ := bind_ok h
@@ -941,7 +941,7 @@ theorem du_strict_S : ∀ (s : Stmt) (env : Env) (c c' : Scope), duS c s = .ok c
     simp only [duS] at h
     have := pure_ok h; subst this
     exact ⟨env, rfl, hi⟩
-theorem du_strict_B : ∀ (b : Block) (env : Env) (c c' : Scope), duB c b = .ok c' → InvD env c →
+theorem du_strict_B : ∀ (b : Block) (env : Env) (c c' : Scope), duB false c b = .ok c' → InvD env c →
     ∃ env', checkB Mode.strict env b = .ok env' ∧ InvD env' c'
   | .nil, env, c, c', h, hi => by
     simp only [duB] at h
@@ -1000,23 +1000,23 @@ theorem safe_of_frontend (m : Mode) (z : Bool) (hm : m.forLeak = false ∨ z = t
   | timeout => rfl
 
 /-- the interpreter's pre-pass succeeds exactly on the programs the strict discipline lets through -/
-theorem prepass_iff_strict (p : Func) :
-    prepass p = .ok () ↔ ∃ env', checkB Mode.strict (Env.init p.args) p.body = .ok env' := by
+theorem prepassLegacy_iff_strict (p : Func) :
+    prepassLegacy p = .ok () ↔ ∃ env', checkB Mode.strict (Env.init p.args) p.body = .ok env' := by
   constructor
   · intro h
-    unfold prepass at h
-    cases hd : duB (Scope.ofList p.args) p.body with
+    unfold prepassLegacy prepassWith at h
+    cases hd : duB false (Scope.ofList p.args) p.body with
     | error x => rw [hd] at h; cases h
     | ok c' =>
       obtain ⟨env', hc, _⟩ := du_strict_B p.body (Env.init p.args) _ c' hd (InvD_init p.args)
       exact ⟨env', hc⟩
   · rintro ⟨env', hc⟩
     obtain ⟨c', hd, _⟩ := strict_duB p.body (Env.init p.args) env' _ hc (InvC_init p.args)
-    simp [prepass, hd]
+    simp [prepassLegacy, prepassWith, hd]
 
 theorem frontend_strict_iff (p : Func) :
-    frontend Mode.strict p = .ok () ↔ prepass p = .ok () ∧ reachCheck p = .ok () := by
-  rw [prepass_iff_strict]
+    frontend Mode.strict p = .ok () ↔ prepassLegacy p = .ok () ∧ reachCheck p = .ok () := by
+  rw [prepassLegacy_iff_strict]
   constructor
   · intro h
     unfold frontend at h
@@ -1026,5 +1026,221 @@ theorem frontend_strict_iff (p : Func) :
     unfold frontend
     rw [h1]; exact h2
 
+
+
+/-! ### the repaired front end implies the repaired pre-pass succeeds -/
+
+theorem Env.merge_cases {a b : Env} {x : Name} (h : (a.merge b).get x = some true) :
+    (a.term = false ∧ b.term = false ∧ a.get x = some true ∧ b.get x = some true) ∨
+    (a.term = true ∧ b.term = false ∧ b.get x = some true) ∨
+    (a.term = false ∧ b.term = true ∧ a.get x = some true) := by
+  unfold Env.merge at h
+  cases ha : a.term <;> cases hb : b.term <;> simp [ha, hb, Env.empty] at h
+  · exact Or.inl ⟨rfl, rfl, mergeGet_true h⟩
+  · exact Or.inr (Or.inr ⟨rfl, rfl, h⟩)
+  · exact Or.inr (Or.inl ⟨rfl, rfl, h⟩)
+
+mutual
+/-- a terminated environment stays terminated -/
+theorem term_preserved_S : ∀ (m : Mode) (s : Stmt) (env env' : Env),
+    checkS m env s = .ok env' → env.term = true → env'.term = true
+  | m, .assign ts e, env, env', h, ht => by
+    obtain ⟨_, rfl⟩ := checkS_assign h; simpa using ht
+  | m, .if1 c t, env, env', h, ht => by
+    obtain ⟨_, ift, h2, rfl⟩ := checkS_if1 h
+    simp [Env.merge_term, ht, term_preserved_B m t env ift h2 ht]
+  | m, .ite c t e, env, env', h, ht => by
+    obtain ⟨_, ift, iff, h2, h3, rfl⟩ := checkS_ite h
+    simp [Env.merge_term, term_preserved_B m t env ift h2 ht, term_preserved_B m e env iff h3 ht]
+  | m, .while c b, env, env', h, ht => by
+    obtain ⟨body, h1, _, rfl⟩ := checkS_while h
+    simp [Env.merge_term, ht, term_preserved_B m b env body h1 ht]
+  | m, .for ts it b, env, env', h, ht => by
+    obtain ⟨_, body, h2, rfl⟩ := checkS_for h
+    have hb := term_preserved_B m b (env.extendAll ts) body h2 (by simpa using ht)
+    cases m.forLeak <;> simp [Env.merge_term, ht, hb]
+  | m, .with e a b, env, env', h, ht => by
+    obtain ⟨_, h2⟩ := checkS_with h
+    refine term_preserved_B m b (env.extendOpt a) env' h2 ?_
+    cases a with
+    | none => exact ht
+    | some x => simpa [Env.extendOpt] using ht
+  | m, .ret e, env, env', h, ht => by
+    have := checkS_ret_env h; subst this
+    cases m.absorb <;> simp [Env.empty, ht]
+  | m, .eff e, env, env', h, ht => by
+    obtain ⟨_, rfl⟩ := checkS_eff h; exact ht
+  | m, .pass, env, env', h, ht => by
+    have := checkS_pass h; subst this; exact ht
+theorem term_preserved_B : ∀ (m : Mode) (b : Block) (env env' : Env),
+    checkB m env b = .ok env' → env.term = true → env'.term = true
+  | m, .nil, env, env', h, ht => by
+    have := checkB_nil h; subst this; exact ht
+  | m, .cons s b, env, env', h, ht => by
+    obtain ⟨env1, h1, h2⟩ := checkB_cons h
+    exact term_preserved_B m b env1 env' h2 (term_preserved_S m s env env1 h1 ht)
+end
+
+mutual
+/-- from a live environment, the checker's `terminated` flag says exactly that control cannot reach
+the end (the front end and `_falls_through` agree) -/
+theorem term_iff_falls_S : ∀ (s : Stmt) (env env' : Env),
+    checkS Mode.real env s = .ok env' → env.term = false → env'.term = !fallsS s
+  | .assign ts e, env, env', h, hl => by
+    obtain ⟨_, rfl⟩ := checkS_assign h; simpa [fallsS] using hl
+  | .if1 c t, env, env', h, hl => by
+    obtain ⟨_, ift, _, rfl⟩ := checkS_if1 h
+    simp [Env.merge_term, hl, fallsS]
+  | .ite c t e, env, env', h, hl => by
+    obtain ⟨_, ift, iff, h2, h3, rfl⟩ := checkS_ite h
+    simp [Env.merge_term, fallsS, term_iff_falls_B t env ift h2 hl, term_iff_falls_B e env iff h3 hl]
+  | .while c b, env, env', h, hl => by
+    obtain ⟨body, _, _, rfl⟩ := checkS_while h
+    simp [Env.merge_term, hl, fallsS]
+  | .for ts it b, env, env', h, hl => by
+    obtain ⟨_, body, _, rfl⟩ := checkS_for h
+    simp [Env.merge_term, hl, fallsS, Mode.real]
+  | .with e a b, env, env', h, hl => by
+    obtain ⟨_, h2⟩ := checkS_with h
+    simp only [fallsS]
+    refine term_iff_falls_B b (env.extendOpt a) env' h2 ?_
+    cases a with
+    | none => exact hl
+    | some x => simpa [Env.extendOpt] using hl
+  | .ret e, env, env', h, hl => by
+    have := checkS_ret_env h; subst this
+    simp [Mode.real, Env.empty, fallsS]
+  | .eff e, env, env', h, hl => by
+    obtain ⟨_, rfl⟩ := checkS_eff h; simpa [fallsS] using hl
+  | .pass, env, env', h, hl => by
+    have := checkS_pass h; subst this; simpa [fallsS] using hl
+theorem term_iff_falls_B : ∀ (b : Block) (env env' : Env),
+    checkB Mode.real env b = .ok env' → env.term = false → env'.term = !fallsB b
+  | .nil, env, env', h, hl => by
+    have := checkB_nil h; subst this; simpa [fallsB] using hl
+  | .cons s b, env, env', h, hl => by
+    obtain ⟨env1, h1, h2⟩ := checkB_cons h
+    have hs := term_iff_falls_S s env env1 h1 hl
+    simp only [fallsB]
+    cases hf : fallsS s with
+    | true =>
+      rw [hf] at hs
+      simpa using term_iff_falls_B b env1 env' h2 (by simpa using hs)
+    | false =>
+      rw [hf] at hs
+      simpa using term_preserved_B Mode.real b env1 env' h2 (by simpa using hs)
+end
+
+/-- every name the checker marks defined is in the pre-pass context (no liveness condition) -/
+def InvR (env : Env) (c : Scope) : Prop := ∀ x, env.get x = some true → c x = true
+
+theorem InvR.extendAll {env : Env} {c : Scope} (h : InvR env c) (ts : List Name) :
+    InvR (env.extendAll ts) (c.addAll ts) := by
+  intro x hx
+  rw [Env.extendAll_get] at hx
+  rw [Scope.addAll_get]
+  exact hx.imp id (h x)
+
+theorem InvR.extendOpt {env : Env} {c : Scope} (h : InvR env c) (a : Option Name) :
+    InvR (env.extendOpt a) (c.addOpt a) := by
+  cases a with
+  | none => exact h
+  | some x => exact h.extendAll [x]
+
+/-- merging with something checked from the same (possibly extended) start: the result's defined
+names are defined at the start -/
+theorem InvR.merge_start {a b : Env} {c : Scope} (h : InvR a c) (hb : a.term = true → b.term = true) :
+    InvR (a.merge b) c := by
+  intro x hx
+  rcases Env.merge_cases hx with ⟨_, _, h1, _⟩ | ⟨ht, hf, _⟩ | ⟨_, _, h1⟩
+  · exact h x h1
+  · rw [hb ht] at hf; cases hf
+  · exact h x h1
+
+mutual
+theorem real_duS : ∀ (s : Stmt) (env env' : Env) (c : Scope),
+    checkS Mode.real env s = .ok env' → InvR env c → ∃ c', duS true c s = .ok c' ∧ InvR env' c'
+  | .assign ts e, env, env', c, h, hi => by
+    obtain ⟨h1, rfl⟩ := checkS_assign h
+    exact ⟨c.addAll ts, by simp only [duS, duE_of_checkE e env c h1 hi]; rfl, hi.extendAll ts⟩
+  | .if1 cnd t, env, env', c, h, hi => by
+    obtain ⟨h1, ift, h2, rfl⟩ := checkS_if1 h
+    obtain ⟨c1, hd, _⟩ := real_duB t env ift c h2 hi
+    exact ⟨c, by simp only [duS, duE_of_checkE cnd env c h1 hi, hd]; rfl,
+      hi.merge_start (term_preserved_B _ t env ift h2)⟩
+  | .ite cnd t e, env, env', c, h, hi => by
+    obtain ⟨h1, ift, iff, h2, h3, rfl⟩ := checkS_ite h
+    obtain ⟨c1, hd1, hi1⟩ := real_duB t env ift c h2 hi
+    obtain ⟨c2, hd2, hi2⟩ := real_duB e env iff c h3 hi
+    refine ⟨_, by simp only [duS, duE_of_checkE cnd env c h1 hi, hd1, hd2]; rfl, ?_⟩
+    intro x hx
+    cases hl : env.term with
+    | true =>
+      have t1 := term_preserved_B _ t env ift h2 hl
+      have t2 := term_preserved_B _ e env iff h3 hl
+      rcases Env.merge_cases hx with ⟨f1, _⟩ | ⟨_, f2, _⟩ | ⟨f1, _⟩
+      · rw [t1] at f1; cases f1
+      · rw [t2] at f2; cases f2
+      · rw [t1] at f1; cases f1
+    | false =>
+      have t1 := term_iff_falls_B t env ift h2 hl
+      have t2 := term_iff_falls_B e env iff h3 hl
+      rcases Env.merge_cases hx with ⟨f1, f2, x1, x2⟩ | ⟨f1, f2, x2⟩ | ⟨f1, f2, x1⟩
+      · rw [t1] at f1; rw [t2] at f2
+        have g1 : fallsB t = true := by simpa using f1
+        have g2 : fallsB e = true := by simpa using f2
+        simp [g1, g2, Scope.inter, hi1 x x1, hi2 x x2]
+      · rw [t1] at f1; rw [t2] at f2
+        have g1 : fallsB t = false := by simpa using f1
+        have g2 : fallsB e = true := by simpa using f2
+        simp [g1, g2, hi2 x x2]
+      · rw [t1] at f1; rw [t2] at f2
+        have g1 : fallsB t = true := by simpa using f1
+        have g2 : fallsB e = false := by simpa using f2
+        simp [g1, g2, hi1 x x1]
+  | .while cnd b, env, env', c, h, hi => by
+    obtain ⟨body, h1, h2, rfl⟩ := checkS_while h
+    obtain ⟨c1, hd, _⟩ := real_duB b env body c h1 hi
+    have hi' : InvR (env.merge body) c := hi.merge_start (term_preserved_B _ b env body h1)
+    exact ⟨c, by simp only [duS, duE_of_checkE cnd _ c h2 hi', hd]; rfl, hi'⟩
+  | .for ts it b, env, env', c, h, hi => by
+    obtain ⟨h1, body, h2, rfl⟩ := checkS_for h
+    obtain ⟨c1, hd, _⟩ := real_duB b (env.extendAll ts) body (c.addAll ts) h2 (hi.extendAll ts)
+    refine ⟨c, by simp only [duS, duE_of_checkE it env c h1 hi, hd]; rfl, ?_⟩
+    have := hi.merge_start (b := body) fun ht =>
+      term_preserved_B _ b (env.extendAll ts) body h2 (by simpa using ht)
+    simpa [Mode.real] using this
+  | .with e a b, env, env', c, h, hi => by
+    obtain ⟨h1, h2⟩ := checkS_with h
+    obtain ⟨c1, hd, hi1⟩ := real_duB b (env.extendOpt a) env' (c.addOpt a) h2 (hi.extendOpt a)
+    exact ⟨c1, by simp only [duS, duE_of_checkE e env c h1 hi]; exact hd, hi1⟩
+  | .ret e, env, env', c, h, hi => by
+    have h1 := checkS_ret h
+    have h2 := checkS_ret_env h
+    subst h2
+    exact ⟨c, by simp only [duS, duE_of_checkE e env c h1 hi]; rfl, fun x hx => by simp [Mode.real, Env.empty] at hx⟩
+  | .eff e, env, env', c, h, hi => by
+    obtain ⟨h1, rfl⟩ := checkS_eff h
+    exact ⟨c, by simp only [duS, duE_of_checkE e env' c h1 hi]; rfl, hi⟩
+  | .pass, env, env', c, h, hi => by
+    have := checkS_pass h; subst this
+    exact ⟨c, rfl, hi⟩
+theorem real_duB : ∀ (b : Block) (env env' : Env) (c : Scope),
+    checkB Mode.real env b = .ok env' → InvR env c → ∃ c', duB true c b = .ok c' ∧ InvR env' c'
+  | .nil, env, env', c, h, hi => by
+    have := checkB_nil h; subst this
+    exact ⟨c, rfl, hi⟩
+  | .cons s b, env, env', c, h, hi => by
+    obtain ⟨env1, h1, h2⟩ := checkB_cons h
+    obtain ⟨c1, hd1, hi1⟩ := real_duS s env env1 c h1 hi
+    obtain ⟨c2, hd2, hi2⟩ := real_duB b env1 env' c1 h2 hi1
+    exact ⟨c2, by simp only [duB, hd1]; exact hd2, hi2⟩
+end
+
+/-- **the pre-pass succeeds on everything the front end accepts** -/
+theorem prepass_ok_of_frontend {p : Func} (h : frontend Mode.real p = .ok ()) : prepass p = .ok () := by
+  obtain ⟨⟨env', h1⟩, _⟩ := frontend_ok h
+  obtain ⟨c', hd, _⟩ := real_duB p.body (Env.init p.args) env' (Scope.ofList p.args) h1 (InvC_init p.args).2
+  simp [prepass, prepassWith, hd]
 
 end Fpy.Skel
